@@ -22,6 +22,8 @@ def _worker(conn, fn):
     import warnings
     logging.disable(logging.CRITICAL)
     warnings.simplefilter("ignore")
+    import sys
+    sys.stderr = open(os.devnull, "w")   # ANTLR's console error listener is noisy on rejected inputs
     while True:
         try:
             msg = conn.recv()
